@@ -300,6 +300,7 @@ pub fn world_cfg(topo: Topology, seed: u64) -> WorldCfg {
         faults: FaultPlan::default(),
         seed,
         tracers: 1,
+        alt_targets: Vec::new(),
     }
 }
 
